@@ -15,7 +15,8 @@ DEFAULT_RULE = ('cases generated from one PRNG seeded by VERIF_SEED (structured 
                 'precomposed/decomposed accents, emoji ZWJ sequences, flags, Hangul, Indic conjuncts, Prepend; 25% of cases draw from a '
                 'degenerate vocabulary: lone Extend/ZWJ/SpacingMark/RI, controls, Prepend at end); positions from {inside, boundary, beyond, '
                 'negative, End, MinInt+1, MaxInt}; a case is non-trivial if it contains a non-ASCII byte or a negative/out-of-range integer; '
-                'distinct = distinct case lines')
+                'distinct = distinct case lines; every case is executed twice by the harness: once with every step repeated and the receiver (and, in '
+                'history streams, every earlier pool entry) re-observed, and once silently with the pool observed last entry first - the observations must agree')
 
 # streams: (name, quick count, thorough count)
 PROPS = {
